@@ -218,7 +218,7 @@ func runC09(r *mon.Run) {
 	var jobs []job
 	maxR := r.Pick(4, 6)
 	for R := 1; R <= maxR; R++ {
-		reps := r.Pick(3, 6)
+		reps := r.Pick(3, 12)
 		for rep := 0; rep < reps; rep++ {
 			depth, sample := 3, 0
 			if R >= 4 {
@@ -232,7 +232,7 @@ func runC09(r *mon.Run) {
 			jobs = append(jobs, job{R, rng.Uint64(), rep%2 == 1, 4, r.Pick(300, 3000)})
 		}
 	}
-	for i := 0; i < r.Pick(6, 60); i++ {
+	for i := 0; i < r.Pick(6, 200); i++ {
 		jobs = append(jobs, job{8 + rng.IntN(33), rng.Uint64(), i%2 == 0, 6, r.Pick(60, 300)})
 	}
 	var exhaustiveDone atomic.Int64
